@@ -7,6 +7,9 @@ import (
 	"strings"
 )
 
+// bit offsets must address a byte below the 512 MB string size limit
+const bitOffsetLimit = int64(1) << 32
+
 func fnBitCount(ctx *cmdContext, args map[string]any) (output respValue, err error) {
 	keyName := args["key"].(string)
 
@@ -119,7 +122,7 @@ func parseBitfieldOffset(spec string, width int) (offset int, valid bool) {
 			valid = false
 			return
 		}
-		if n < 0 {
+		if n < 0 || n*int64(width) >= bitOffsetLimit {
 			valid = false
 			return
 		}
@@ -370,7 +373,7 @@ func fnGetBit(ctx *cmdContext, args map[string]any) (output respValue, err error
 	keyName := args["key"].(string)
 	bit64 := args["offset"].(int64)
 
-	if bit64 < 0 {
+	if bit64 < 0 || bit64 >= bitOffsetLimit {
 		output.data = respErrorString("ERR bit offset is not an integer or out of range")
 		return
 	}
@@ -403,7 +406,7 @@ func fnSetBit(ctx *cmdContext, args map[string]any) (output respValue, err error
 	offset64 := args["offset"].(int64)
 	value64 := args["value"].(int64)
 
-	if offset64 < 0 {
+	if offset64 < 0 || offset64 >= bitOffsetLimit {
 		output.data = respErrorString("ERR bit offset is not an integer or out of range")
 		return
 	}
